@@ -154,6 +154,8 @@ def run_kani_units(units, cfgs, repo, tier, work, prop=None):
                 only = cfg.get("serves_only", {}).get(h)
                 if only is not None and prop is not None and prop not in only:
                     continue  # this harness serves other properties only: do not even run it
+                if os.environ.get("VERIF_HARNESS") and not re.search(os.environ["VERIF_HARNESS"], h):
+                    continue  # debugging aid (evidence is not written with --unit)
                 hlist.append(h)
                 hmeta[h] = (u, hc)
             for fl in cfg.get("flags", []):
